@@ -12,6 +12,21 @@ CHECKS = {
          "DESIGN.md §7 C20",
          "Trusts the stub's rendering of `go list -export` output, os file semantics, and that paths/fingerprints contain no tab or newline. Damage that yields a well-formed file describing different plausible entries (e.g. one flipped byte inside an export path) is outside 'malformed' and only checked for panics.",
          "property-based stateful testing against a reference model with fault injection (rapid), race detector"),
+ "C02": ("exploration",
+         "Generated valid programs (confirmed by go/types) are driven through the builder; the builder must report nothing, the output must type-check, and a canonical typed dump of the output (declarations, statement tree, operators, constant values, identifier bindings, expression types; formatting, parentheses, import names, declaration grouping and elided literal types abstracted away) must equal the dump of the source. Sampling.",
+         "DESIGN.md §7 C02, §3",
+         "Trusts go/types and the canonical dump (h/oracle/dump.go) as the definition of 'same program'; constructs outside the generator's grammar (cgo, build tags, methods of generic types, which the builder cannot declare) are not covered.",
+         "property-based testing: generated programs, round-trip through the builder compared by canonical typed dump"),
+ "C01": ("exploration",
+         "Generated-program search with go/types as oracle (rapid): typed-by-construction programs and 30 kinds of type-breaking syntax mutations of them are driven through the builder by an own front end (h/drive) in the default and XGo-builtin configurations; if the builder accepts, every emitted file must parse and the package must type-check (unused variables/imports excepted). The many acceptance holes of the current tree are enumerated as known findings keyed by the exact go/types diagnostic class of the emitted code; anything else is a violation. Sampling of an unbounded program space.",
+         "DESIGN.md §7 C01, §6",
+         "Trusts go/types (go1.23) as the Go specification, go/parser, and the front end h/drive as a faithful rendering of how a compiler front end calls the builder. Known-finding matchers work at the granularity of go/types' diagnostic text incl. its context ('in send', 'in map index', ...).",
+         "property-based testing: generated + mutated programs, differential against go/types on the emitted code"),
+ "C03": ("exploration",
+         "While generated valid programs are driven through the builder, the type on top of the operand stack after every sub-expression (and the reference type of every assignment target, and the scope entry of every name declared by :=, var, const, range and type switch) is compared with go/types' context-free type of the same source expression (types.CheckExpr keeps untyped kinds visible). Bottom-up, so a disagreement is reported at its innermost site. Sampling.",
+         "DESIGN.md §7 C03",
+         "Trusts go/types; call targets and generic-function bases are compared only through the call / instantiation result; expressions go/types cannot re-evaluate standalone are skipped (counted).",
+         "property-based testing: generated programs, per-subexpression differential against go/types"),
  "C19": ("exploration",
          "Model-based state-machine testing (rapid): random Set/Delete/At/Len/Keys/Iterate/String histories over a pool of generated type keys containing structurally identical but pointer-distinct rebuilds, aliases, permuted/flattened interfaces, permuted unions, renamed type parameters, separately created instantiations, deliberate hash-collision twins and same-named foreign types; after every step every observable is compared with an association list over types.Identical, and Identical=>equal-hash is checked on all pool pairs. Sampling, not proof: right level because the property quantifies over unbounded histories and type shapes.",
          "DESIGN.md §7 C19",
